@@ -182,4 +182,54 @@ structure DatainfoCheck where
 
 def datainfoAgreeB (c : DatainfoCheck) : Bool := c.clientAccepts == c.nodeAccepts
 
+/-! ### which modules are registered for the report -/
+
+/-- "the structure report lists exactly the exported modules" — for every node CONFIGURATION: whichever way and at
+whichever moment a module object came into being (its own turn in the configuration, as the attached module of a module
+initialised earlier, out of a Pinata), it is registered for the report exactly when its `export` flag is set, once, in
+the order of creation.  `created`: the module objects of the node (`SecNode.modules`) with their `export` flag;
+`export`: the list the report is made from (`SecNode.export`). -/
+def RegisteredOK (created : List (String × Bool)) (registered : List String) : Prop :=
+  registered = (created.filter (·.2)).map (·.1)
+
+instance (created : List (String × Bool)) (registered : List String) : Decidable (RegisteredOK created registered) := by
+  unfold RegisteredOK; infer_instance
+
+def registeredB (created : List (String × Bool)) (registered : List String) : Bool :=
+  decide (RegisteredOK created registered)
+
+/-- the part of `RegisteredOK` the STATEMENT needs ("lists exactly the exported modules"): no module object with a set
+`export` flag is missing from the list the report is made from (the monitor for the implementation; a surplus entry
+or another order would not make the report untrue by itself) -/
+def unregistered (created : List (String × Bool)) (registered : List String) : List String :=
+  ((created.filter (·.2)).map (·.1)).filter (fun m => !registered.contains m)
+
+def allRegisteredB (created : List (String × Bool)) (registered : List String) : Bool :=
+  (unregistered created registered).isEmpty
+
+/-- the registered modules whose object has the flag set (the ones `get_descriptive_data` does not skip) -/
+def registeredExported (created : List (String × Bool)) (registered : List String) : List String :=
+  registered.filter (fun m => created.contains (m, true))
+
+/-- the report has one entry per registered module, in that order -/
+def reportFollowsB (registered : List String) (d : List (ModDesc J)) : Bool := decide (d.map (·.name) = registered)
+
+/-! ### stability while the node changes -/
+
+/-- "stable between calls" when module code changed the datatype of some live parameters between the two calls
+(`touched`: their (module, wire name) pairs): the same modules, module properties and accessibles in the same order;
+an entry that was not touched is the same, a touched one may differ in its `datainfo` only.  (Whether the NEW datainfo
+is true is what `ProbeOK` / `datainfoAgreeB` judge against the behaviour after the change.) -/
+def StableExcept [DecidableEq J] (touched : List (String × String)) (d1 d2 : List (ModDesc J)) : Prop :=
+  d1.map (·.name) = d2.map (·.name) ∧ d1.map (·.props) = d2.map (·.props) ∧
+  ∀ xy ∈ d1.zip d2, xy.1.accs.map (·.name) = xy.2.accs.map (·.name) ∧
+    ∀ ab ∈ xy.1.accs.zip xy.2.accs,
+      if (xy.1.name, ab.1.name) ∈ touched then { ab.1 with datainfo := ab.2.datainfo } = ab.2 else ab.1 = ab.2
+
+def stableExceptB [DecidableEq J] (touched : List (String × String)) (d1 d2 : List (ModDesc J)) : Bool :=
+  decide (d1.map (·.name) = d2.map (·.name)) && decide (d1.map (·.props) = d2.map (·.props)) &&
+  (d1.zip d2).all (fun xy => decide (xy.1.accs.map (·.name) = xy.2.accs.map (·.name)) &&
+    (xy.1.accs.zip xy.2.accs).all (fun ab =>
+      if (xy.1.name, ab.1.name) ∈ touched then decide ({ ab.1 with datainfo := ab.2.datainfo } = ab.2) else decide (ab.1 = ab.2)))
+
 end Frappy.Spec.C06
